@@ -1,6 +1,7 @@
 package main
 
 import (
+	"hash/crc32"
 	"archive/tar"
 	"bytes"
 	"compress/bzip2"
@@ -214,7 +215,13 @@ func init() {
 					listing = showList(files)
 				}
 			}
-			items = append(items, fmt.Sprintf("( %s %d %s %s )", hx(n), e.Size, showBool(e.IsTarfile()), listing))
+			// and the entry's own reader, as the loader left it: it delivers the member's bytes, all of them (debian-binary included)
+			raw, rerr := ioutil.ReadAll(e.Data)
+			rd := fmt.Sprintf("%d:%08x", len(raw), crc32.ChecksumIEEE(raw))
+			if rerr != nil {
+				rd = "read-error"
+			}
+			items = append(items, fmt.Sprintf("( %s %d %s %s %s )", hx(n), e.Size, showBool(e.IsTarfile()), listing, rd))
 		}
 		return "ok " + showList(items)
 	}
